@@ -17,6 +17,7 @@ type seg struct {
 	v      []float64 // absolute: L x y | C x1 y1 x2 y2 x y | Q x1 y1 x y | A rx ry rot large sweep x y
 	src    byte      // command letter the segment came from ('L' for implicit lineto after M)
 	x0, y0 float64   // start point of the segment
+	raw    int       // index in pathInfo.segs
 }
 
 func (s seg) end() (float64, float64) {
@@ -135,7 +136,7 @@ func parsePath(s string) (*pathInfo, error) {
 		pi.cmds = append(pi.cmds, c)
 		rel := c >= 'a'
 		if up == 'Z' {
-			pi.segs = append(pi.segs, seg{k: 'Z', src: c, x0: cx, y0: cy})
+			pi.segs = append(pi.segs, seg{k: 'Z', src: c, x0: cx, y0: cy, raw: len(pi.segs)})
 			cx, cy = sx, sy
 			prev = 0
 			l.wsp()
@@ -229,6 +230,7 @@ func parsePath(s string) (*pathInfo, error) {
 					pi.maxAbs = m
 				}
 			}
+			sg.raw = len(pi.segs)
 			pi.segs = append(pi.segs, sg)
 			// another argument set?
 			save := l.i
@@ -293,7 +295,7 @@ func (t tolr) normSegs(in []seg) []seg {
 	for _, s := range in {
 		if (s.k == 'C' || s.k == 'Q') && t.degenerate(s) {
 			ex, ey := s.end()
-			s = seg{k: 'L', v: []float64{ex, ey}, src: s.src, x0: s.x0, y0: s.y0}
+			s = seg{k: 'L', v: []float64{ex, ey}, src: s.src, x0: s.x0, y0: s.y0, raw: s.raw}
 		}
 		if s.k == 'L' && t.zeroLen(s) {
 			continue
@@ -433,28 +435,34 @@ func classifyPathDiff(d *pathDiff, s string, in *pathInfo) string {
 	sh := pathShapes(s, in)
 	t := tolr{scale: in.maxAbs}
 	norm := t.normSegs(in.segs)
-	if d.inIdx < len(norm) {
-		sg := norm[d.inIdx]
-		if (sg.k == 'C' || sg.k == 'Q') && (d.cat == "control-point-1" || d.cat == "control-point" || d.cat == "segment-kind") {
-			// find the raw predecessor
-			for i, r := range in.segs {
-				if i > 0 && r.x0 == sg.x0 && r.y0 == sg.y0 && r.src == sg.src && len(r.v) == len(sg.v) && sameVals(r.v, sg.v) {
-					p := in.segs[i-1]
-					if t.removable(p) && sh["N14"] {
-						return knownSig["N14"]
-					}
-					if isSmooth(sg.src) && smoothFamily(p.src) == smoothFamily(sg.src) && t.degenerate(p) && sh["K44"] {
-						return knownSig["K44"]
-					}
-				}
-			}
-		}
-	}
 	if sh["N16"] {
 		return knownSig["N16"]
 	}
 	if sh["N15"] {
 		return knownSig["N15"]
+	}
+	// raw input segments between the last agreeing segment and the differing one
+	lo, hi := 0, len(in.segs)-1
+	if d.inIdx > 0 && d.inIdx-1 < len(norm) {
+		lo = norm[d.inIdx-1].raw + 1
+	}
+	if d.inIdx < len(norm) {
+		hi = norm[d.inIdx].raw
+	}
+	for i := lo; i <= hi && i < len(in.segs); i++ {
+		if i == 0 {
+			continue
+		}
+		sg, p := in.segs[i], in.segs[i-1]
+		if smoothFamily(sg.src) == 0 {
+			continue
+		}
+		if t.removable(p) && sh["N14"] {
+			return knownSig["N14"]
+		}
+		if isSmooth(sg.src) && smoothFamily(p.src) == smoothFamily(sg.src) && t.degenerate(p) && sh["K44"] {
+			return knownSig["K44"]
+		}
 	}
 	suffix := ""
 	if d.inIdx > 0 && d.inIdx <= len(norm) && norm[d.inIdx-1].k == 'Z' {
